@@ -181,7 +181,7 @@ func mentions(e Expr, name string) bool {
 // LemmaRun generates the proof obligations of one lemma.
 func (eng *Engine) LemmaRun(ax *Axiom) (run *FuncRun) {
 	run = &FuncRun{eng: eng, key: "lemma:" + ax.Name, decls: map[string]string{}, compSorts: map[string]Sort{}, epochInfo: map[int]*epochInfo{}, checkSeen: map[string]int{}, checkSkip: map[string]int{},
-		unknownCalls: map[string]bool{}, usedContracts: map[string]bool{}, usedExternals: map[string]bool{}, usedAxioms: map[string]bool{}}
+		unknownCalls: map[string]bool{}, assumedFrames: map[string]bool{}, usedContracts: map[string]bool{}, usedExternals: map[string]bool{}, usedAxioms: map[string]bool{}}
 	defer func() {
 		if r := recover(); r != nil {
 			if ee, ok := r.(engineError); ok {
